@@ -1,6 +1,7 @@
 """Raw partition op sequences (deepen / make_children interleavings) on the real classes:
 correspondence lines for the Lean driver + C02/C03 monitors."""
 import random
+import numpy as np
 from common import *
 from framework import Case
 import monitors
@@ -53,6 +54,20 @@ def gen_partition_case(seed, idx, wellformed=True, max_nodes=260, force=None):
         if all(float(x).is_integer() and abs(x) < 2 ** 50 for iv in box for x in iv) and rnd.random() < 0.4:
             dom = [[int(iv[0]), int(iv[1])] for iv in box]      # integer bounds, as in the library's own tests
             case.tags["domain=integer-bounds"] += 1
+        # how the caller writes the box (all accepted by the library): one row object repeated ([[0, 1]] * d), rows as
+        # tuples, NumPy scalars, a NumPy array
+        wrnd = random.Random(f"written-{seed}-{idx}")
+        wstyle = wrnd.choice(["plain", "plain", "plain", "tuples", "npscalars", "nparray", "aliased", "aliased"])
+        if wstyle == "aliased" and len(dom) > 1 and all(r == dom[0] for r in dom):
+            dom = [dom[0]] * len(dom)
+            case.tags["written=aliased-rows"] += 1
+        elif wstyle == "tuples":
+            dom = [tuple(r) for r in dom]; case.tags["written=tuples"] += 1
+        elif wstyle == "npscalars":
+            dom = [[np.float64(r[0]), np.float64(r[1])] for r in dom]; case.tags["written=npscalars"] += 1
+        elif wstyle == "nparray":
+            dom = np.array([[float(r[0]), float(r[1])] for r in dom]); case.tags["written=nparray"] += 1
+        dom_before = [[float(x) for x in r] for r in dom]
         part = cls(domain=dom)
         case.op(f"P.init {kind_str(kind, K)} {box_str(box)}", "ok")
         case.op("P.dump", dump_part(part))
@@ -144,7 +159,7 @@ def gen_partition_case(seed, idx, wellformed=True, max_nodes=260, force=None):
         if wellformed:
             for sig, det in monitors.c02_leaves_tile(box, [n.get_domain() for n in leaves_of(part)]):
                 case.fail("C02", sig, det, step="end", kind=kind, K=K, d=d)
-            if part.domain != box:
+            if [[float(x) for x in r] for r in dom] != dom_before:
                 case.fail("C14", "domain-mutated", "user domain object modified", kind=kind)
     meta["ops"] = ops_done
     meta["n_nodes"] = len(part._all)
